@@ -74,7 +74,7 @@ Definition abs (pfx : bytes) (st : kvstate) : smap :=
 
 (* classification of results *)
 Definition is_failure (r : result) : bool :=
-  match r with ENotFound | EDuplicate | EMissingID | EType | EVeto | RPanic => true | _ => false end.
+  match r with ENotFound | EDuplicate | EMissingID | EType | EVeto | RPanic | EOther => true | _ => false end.
 Definition is_mutation (o : op) : bool :=
   match o with OCreate _ _ _ | OUpdate _ _ _ | ODelete _ _ => true | _ => false end.
 
